@@ -39,7 +39,7 @@ CFG = dict(
     model="C14",
     custom=_custom,
     required_theorems=["Props.C14.reach_inv", "Props.C14.wire_order_is_promise_order", "Props.C14.fifo_matching",
-                       "Props.C14.fifo_matching_kth", "Props.C14.no_foreign_frame", "Props.C14.mismatch_is_fault",
+                       "Props.C14.fifo_matching_kth", "Props.C14.no_foreign_frame", "Props.C14.mismatch_is_fault", "Props.C14.match_is_not_fault", "Props.C14.body_is_delivered",
                        "Props.C14.delivered_ids_match", "Props.C14.dead_is_sticky_step", "Props.C14.dead_is_sticky",
                        "Props.C14.failures_carry_first_error", "Props.C14.none_pending", "Props.C14.dead_drains",
                        "Props.C14.on_wire_bound", "Props.C14.on_wire_bound_partial",
